@@ -180,6 +180,43 @@ func c19Build() (*c19Universe, error) {
 				types.NewTuple(types.NewVar(0, nil, "", t)), false),
 			"struct": types.NewStruct([]*types.Var{types.NewField(0, nil, "F", t, false)}, nil),
 		}
+		// round 3: forms that reach the hasher's other code paths - interface method signatures (hashed shallowly), variadic
+		// signatures, channel directions, map keys, unions in both term orders, constraints of a generic signature
+		iface := func(params ...types.Type) *types.Interface {
+			vs := make([]*types.Var, len(params))
+			for k, pt := range params {
+				vs[k] = types.NewVar(0, nil, "", pt)
+			}
+			m := types.NewFunc(0, nil, "M", types.NewSignatureType(nil, nil, nil, types.NewTuple(vs...), types.NewTuple(types.NewVar(0, nil, "", t)), false))
+			it := types.NewInterfaceType([]*types.Func{m}, nil)
+			it.Complete()
+			return it
+		}
+		// (a generic function type is not the type of any value: an interface method taking one is not a Go type, and the hasher
+		// - like x/tools' - hashes type parameters met below an interface method by pointer; such keys are outside the property)
+		if sg, ok := t.(*types.Signature); !ok || sg.TypeParams().Len() == 0 {
+			der["imeth"] = iface(t)
+			der["ideep"] = iface(types.NewSignatureType(nil, nil, nil, types.NewTuple(types.NewVar(0, nil, "", types.NewSlice(t))), nil, false), types.Typ[types.Int])
+		}
+		der["variadic"] = types.NewSignatureType(nil, nil, nil, types.NewTuple(types.NewVar(0, nil, "", types.Typ[types.Int]), types.NewVar(0, nil, "", types.NewSlice(t))), nil, true)
+		der["chan<-"] = types.NewChan(types.SendOnly, t)
+		der["<-chan"] = types.NewChan(types.RecvOnly, t)
+		if types.Comparable(t) {
+			der["mapkey"] = types.NewMap(t, types.Typ[types.Bool])
+		}
+		if _, isIface := t.Underlying().(*types.Interface); !isIface {
+			if b, ok := t.Underlying().(*types.Basic); !ok || b.Kind() != types.Int8 {
+				ua := types.NewInterfaceType(nil, []types.Type{types.NewUnion([]*types.Term{types.NewTerm(false, t), types.NewTerm(true, types.Typ[types.Int8])})})
+				ub := types.NewInterfaceType(nil, []types.Type{types.NewUnion([]*types.Term{types.NewTerm(true, types.Typ[types.Int8]), types.NewTerm(false, t)})})
+				ua.Complete()
+				ub.Complete()
+				der["unionA"], der["unionB"] = ua, ub
+			}
+		}
+		if sg, ok := t.(*types.Signature); !ok || sg.TypeParams().Len() == 0 {
+			tp := types.NewTypeParam(types.NewTypeName(0, nil, "T", nil), iface(t))
+			der["gsig"] = types.NewSignatureType(nil, nil, []*types.TypeParam{tp}, types.NewTuple(types.NewVar(0, nil, "x", tp)), types.NewTuple(types.NewVar(0, nil, "", types.NewSlice(tp))), false)
+		}
 		keys := []string{}
 		for k := range der {
 			keys = append(keys, k)
